@@ -208,14 +208,50 @@ def gen_operand(rng, ident, kind, rows, cols, purpose):
     return d
 
 
+def gen_source(rng, ident, kind, rows, cols):
+    """another detector's container assigned through the detector's bucket setter: `detector.<kind> = source`.
+    The source is of the same class (mostly), of the same or another geometry, empty or holding an array valid for *its* detector."""
+    skind = kind if rng.random() < 0.75 else rng.choice(["photon", "pixel", "signal", "image"])
+    srows, scols = (rows, cols) if rng.random() < 0.55 else rng.choice([(cols, rows + 1), (rows + 1, cols), (rows, cols + 2), (5, 5)])
+    src = {"id": ident, "skind": skind, "rows": srows, "cols": scols, "det": rng.choice(["CCD", "CMOS", "APD"]), "hold": None}
+    r = rng.random()
+    if r < 0.2:
+        return src
+    d = {"id": ident, "seed": rng.randrange(10**6), "fill": rng.choice(["pos", "pos", "zero", "huge", "nan"]), "form": "ndarray",
+         "shape": [srows, scols], "dtype": rng.choice(UINTS if skind == "image" else FLOATS)}
+    if d["dtype"] in UINTS and d["fill"] == "nan":
+        d["fill"] = "pos"
+    if skind == "photon" and r < 0.45:
+        d.update(form="dataarray", dims="std", coord=True, shape=[rng.choice([1, 2]), srows, scols])
+    src["hold"] = d
+    return src
+
+
+def make_source(src):
+    import pyx
+
+    sdet = pyx.make_detector(src["det"], src["rows"], src["cols"])
+    c = getattr(sdet, src["skind"])
+    if src["hold"] is not None:
+        if src["hold"]["form"] == "dataarray":
+            c.array_3d = materialise(src["hold"])
+        else:
+            c.array = materialise(src["hold"])
+    return c
+
+
 def gen_ops(rng, kind, rows, cols, n, ids):
     ops = []
     for _ in range(n):
         w = [("set", 24), ("iadd", 26), ("update", 9), ("empty", 8), ("read", 12), ("dtype", 4), ("shape", 4)]
         if kind == "photon":
             w += [("set3", 22), ("read3", 10)]
+        w.append(("adopt", 7))
         name = rng.choices([a for a, _ in w], [b for _, b in w])[0]
-        if name in ("set", "set3", "iadd"):
+        if name == "adopt":
+            ids[0] += 1
+            ops.append(["adopt", gen_source(rng, ids[0], kind, rows, cols)])
+        elif name in ("set", "set3", "iadd"):
             ids[0] += 1
             ops.append([name, gen_operand(rng, ids[0], kind, rows, cols, name)])
         elif name == "update":
@@ -269,11 +305,14 @@ def directed_box(rng, ids, kind, rows, cols, state, fill_seed=None, dtype=None):
 
 
 # ------------------------------------------------------------------ implementation side
-def get_container(box):
+def get_detector(box):
     import pyx
 
-    det = pyx.make_detector(box["det"], box["rows"], box["cols"])
-    return getattr(det, box["kind"])
+    return pyx.make_detector(box["det"], box["rows"], box["cols"])
+
+
+def get_container(box):
+    return getattr(get_detector(box), box["kind"])
 
 
 def snapshot(c):
@@ -309,11 +348,14 @@ def snapshot(c):
     return {"type": type(x).__name__, "repr": repr(x)[:80]}
 
 
-def apply_op(c, op, plus):
+def apply_op(c, op, plus, det=None, kind=None):
     """returns (outcome, obs, new container)"""
     name = op[0]
     try:
-        if name == "set":
+        if name == "adopt":
+            setattr(det, kind, make_source(op[1]))
+            c = getattr(det, kind)
+        elif name == "set":
             c.array = materialise(op[1])
         elif name == "set3":
             c.array_3d = materialise(op[1])
@@ -345,10 +387,11 @@ def apply_op(c, op, plus):
 
 def run_box(box):
     """[{out, obs, state}] per op on a fresh real container"""
-    c = get_container(box)
+    det = get_detector(box)
+    c = getattr(det, box["kind"])
     res = []
     for op in box["ops"]:
-        out, obs, c2 = apply_op(c, op, box.get("plus", False))
+        out, obs, c2 = apply_op(c, op, box.get("plus", False), det, box["kind"])
         if c2 is not c:
             return res + [{"out": "ok", "obs": "returned-a-different-object", "state": snapshot(c2)}]
         res.append({"out": out, "obs": obs, "state": snapshot(c)})
@@ -437,10 +480,10 @@ def property_predicate(box, impl):
         why = state_ok(kind, rows, cols, st)
         if why:
             # the invariant breaks at this operation; everything later in this history is a consequence
-            bad.append((f"C13:invariant:{kind}.{name}:{'empty' if prev is None else 'full'}",
+            bad.append((f"C13:invariant:{kind}.{name}" + ("" if name == "adopt" else (":empty" if prev is None else ":full")),
                         f"after op #{i} {name} on a{'n empty' if prev is None else ' full'} {kind} container: {why}", i))
             break
-        assignment = name in ("set", "set3", "update") or (name == "iadd" and prev is None)
+        assignment = name in ("set", "set3", "update", "adopt") or (name == "iadd" and prev is None)
         if assignment and out != "ok" and st != prev:
             bad.append((f"C13:failed-assignment-changed-content:{kind}.{name}",
                         f"op #{i} {name} raised {out} but the content changed", i))
@@ -462,6 +505,8 @@ def property_predicate(box, impl):
         if out == "ok":
             if name in ("set", "iadd") or (name == "set3" and kind == "photon") or (name == "update" and op[1] is not None):
                 exp_empty = False
+            elif name == "adopt":
+                exp_empty = op[1]["hold"] is None
             elif name == "empty":
                 exp_empty = kind != "pixel"
             elif name == "update" and op[1] is None:
@@ -479,9 +524,10 @@ def property_predicate(box, impl):
 
 # ------------------------------------------------------------------ equality
 def final_container(box):
-    c = get_container(box)
+    det = get_detector(box)
+    c = getattr(det, box["kind"])
     for op in box["ops"]:
-        _, _, c2 = apply_op(c, op, box.get("plus", False))
+        _, _, c2 = apply_op(c, op, box.get("plus", False), det, box["kind"])
         if c2 is not c:
             break
     return c
@@ -568,7 +614,15 @@ def lean_box(v):
 
 # ------------------------------------------------------------------ requests
 def descs_of(box):
-    return {op[1]["id"]: op[1] for op in box["ops"] if len(op) > 1 and op[1] is not None}
+    d = {}
+    for op in box["ops"]:
+        if len(op) > 1 and op[1] is not None:
+            if op[0] == "adopt":
+                if op[1]["hold"] is not None:
+                    d[op[1]["id"]] = op[1]["hold"]
+            else:
+                d[op[1]["id"]] = op[1]
+    return d
 
 
 def lean_run_request(box):
@@ -578,6 +632,8 @@ def lean_run_request(box):
             ops.append(op)
         elif op[1] is None:
             ops.append([op[0], None])
+        elif op[0] == "adopt":
+            ops.append(["adopt", None if op[1]["hold"] is None else lean_operand(op[1]["hold"])])
         else:
             ops.append([op[0], lean_operand(op[1])])
     return {"op": "run", "kind": box["kind"], "rows": box["rows"], "cols": box["cols"], "ops": ops}
@@ -693,7 +749,7 @@ def body(ck: common.Check):
         nan_skip = v is None and (impl["ab"] is not eq_expected(va, vb))
         if ans["spec"] is not eq_expected(va, vb) and not nan_skip:
             raise common.InfraError(f"python eq oracle and Lean eqSpecB disagree on {case}")
-    ck.rule = ("operation histories (1-12 ops: .array=, .array_3d=, update, +=/+, empty, .array, .array_3d, .dtype, .shape) on the real "
+    ck.rule = ("operation histories (1-12 ops: .array=, .array_3d=, update, +=/+, detector.<bucket> = <container of another detector>, empty, .array, .array_3d, .dtype, .shape) on the real "
                "photon/pixel/signal/image/phase containers of CCD/CMOS/MKID/APD detectors of 1..5 x 1..5 pixels; operands: right/wrong "
                "shapes (transposed, +1, 1-D, 3-D, 0-d, broadcastable), all 19 numpy dtypes incl. object/str/datetime, lists, numpy and "
                "Python scalars, None, DataArrays with right/wrong dims/coords, negative/NaN/huge/zero fills; plus every dtype x "
